@@ -14,8 +14,8 @@ try:
     open(p, "w").write(s)
     compile(s, p, "exec")
     for pid in pids.split(","):
-        r = subprocess.run(["/venv/bin/python", "-m", "sa.check", pid, "--repo", d], cwd="/verif", capture_output=True, text=True)
-        out = [l for l in r.stdout.splitlines() if l.startswith(("VIOLATION", "  ", "ANALYSIS", "KNOWN"))]
+        r = subprocess.run(["/venv/bin/python", "-m", "sa.check", pid, "--scratch", "--repo", d], cwd="/verif", capture_output=True, text=True)
+        out = [l for l in r.stdout.splitlines() if l.startswith(("VIOLATION", "SCRATCH", "  ", "ANALYSIS", "KNOWN"))]
         print(pid, "exit", r.returncode); print("\n".join(out[:12]))
 finally:
     shutil.rmtree(d)
